@@ -284,6 +284,34 @@ def run_table(ctx):
     ctx.exhaustive['builtin-x-argument-shape-table'] = True
 
 
+def widened_table_cases():
+    """Deterministic: calls with several arguments (API only) under quantifiers, plain and negated - the quantified
+    variable, an alias field or an own field as the only non-literal argument, in a later argument position."""
+    bodies = ['abs(@i) > @A.x', 'abs(@i) > x', 'abs(x) > @i', 'abs(@i + x) > 0 and y > 0', 'abs(@A.x) > @i or b', 'abs(@i) > 0']
+    doms = ['xs', '[0 to 3]', '{1, 2}', '@A.xs']
+    for qk in ('forall', 'exists'):
+        for dom in doms:
+            for body in bodies:
+                for neg in ('', 'not '):
+                    text = f'{neg}({qk} i in {dom}: ({body}))'
+                    for variant in range(len(lib.WIDENINGS)):
+                        for pre in ([f'widen_calls:{variant}'], [f'widen_calls:{variant}', 'negate'], ['negate', f'widen_calls:{variant}']):
+                            yield {'kind': 'condition', 'text': text, 'this': TABLE_THIS, 'aliases': TABLE_ALIASES, 'pre': pre}
+
+
+def run_widened_table(ctx):
+    with ctx.timed('widened-table'):
+        for inp in widened_table_cases():
+            if inp['pre'][0] == 'negate' or inp['pre'][-1] == 'negate':
+                inp = dict(inp, kind='predicate', text='{' + inp['text'] + '}')  # negate() is a method of predicates
+            try:
+                a = sub_expr(inp)
+            except Violation as v:
+                ctx.report(v)
+                a = True
+            ctx.case((inp['kind'], inp['text'], tuple(inp['pre'])), a is not None, 'widened-table:' + ('derived' if a is not None else 'not-derivable'), sample=None)
+
+
 ###############################################################################
 # Random families
 ###############################################################################
@@ -478,6 +506,7 @@ def run(ctx):
     with ctx.timed('table'):
         run_table(ctx)
     run_degenerate_pipelines(ctx)
+    run_widened_table(ctx)
     if ctx.tier == 'quick':
         core.run_sharded(ctx, __name__, 'shard', 4, (450, 180))
         core.run_sharded(ctx, __name__, 'shard_small', 4, (40,))
